@@ -45,9 +45,9 @@ type msgSpec struct {
 	BodyLen   int
 	FileBody  bool
 
-	hdr      textproto.Header
-	hdrBytes []byte
-	body     buffer.Buffer
+	hdr       textproto.Header
+	hdrBytes  []byte
+	body      buffer.Buffer
 	bodyBytes []byte
 }
 
